@@ -324,6 +324,38 @@ def grid_families(tier):
                 for a in scopes.COVER_ALGOS:
                     fcov.append({"algo": a, "items": items, "B": B, "fmt": fmt})
     fam["covering"] = fcov
+    # the caller keeps ONE names list, ONE value table and ONE value function and changes the values in place between calls
+    fsh = []
+    for n in (4, 5):
+        vals = [scopes.scramble(ms) for ms in spaces.multisets((1, 2, 3, 5), n, n)]
+        for a in ("greedy", "multifit", "kk", "ckk", "snp", "cbldm"):
+            for v in vals:
+                fsh.append({"algo": a, "items": list(v), "k": 2 if a == "cbldm" else 3, "fmt": "names_shared"})
+        for o in scopes.CG_OBJECTIVES:
+            for v in vals:
+                fsh.append({"algo": "cg", "items": list(v), "k": 2, "fmt": "names_shared", "kw": {"objective": o}})
+        for a in scopes.PACK_ALGOS + scopes.COVER_ALGOS:
+            for v in vals:
+                fsh.append({"algo": a, "items": list(v), "B": 6, "fmt": "names_shared"})
+    fam["shared-valueof"] = fsh
+    # one objective OBJECT per parameterised objective, re-used by calls with fewer bins than its parameter and with more
+    fko = []
+    for ms in spaces.multisets((1, 2, 3, 5), 5, 5):
+        items = list(scopes.scramble(ms))
+        for spec in ("MinimizeKLargestSums(3)", "MaximizeKSmallestSums(3)", "MinimizeKLargestSums(2)", "MaximizeKSmallestSums(2)"):
+            for k in (2, 4, 1, 3):
+                fko.append({"algo": "cg", "items": items, "k": k, "kw": {"objective": spec}, "out": "Sums"})
+                fko.append({"algo": "dp", "items": items, "k": k, "kw": {"objective": spec}, "out": "Sums"})
+    fam["k-objectives"] = fko
+    # bin completion on longer inputs (its search state is richer there), the same items under several bin sizes
+    fbc = []
+    for ms in spaces.multisets((6, 7, 8, 9, 10, 2), 11, 11):
+        if len(set(ms)) < 5 or ms.count(2) > 2:
+            continue
+        items = list(scopes.scramble(ms))
+        for B in ((19, 11, 20, 12) if q else (19, 11, 20, 12, 18, 13, 21)):
+            fbc.append({"algo": "bc", "items": items, "B": B, "out": "Sums"})
+    fam["bin-completion-long"] = fbc if not q else fbc[: 4 * 150]
     for calls in fam.values():
         for c in calls:
             c.setdefault("out", "PartitionAndSumsTuple")
@@ -356,6 +388,7 @@ def run_grid_refs(arg):
 
 
 def _grid_chain_child(calls, order, refs):
+    repo.SHARE_OBJECTIVES[0] = True
     bad = None
     n = 0
     for pos, i in enumerate(order):
@@ -364,6 +397,17 @@ def _grid_chain_child(calls, order, refs):
             bad = {"pos": pos, "index": i, "expected": refs[i], "observed": o}
             break
     return {"executed": n, "bad": bad}
+
+
+def _pair_obs(a, b):
+    repo.SHARE_OBJECTIVES[0] = True
+    _obs_of(a)
+    return _obs_of(b)
+
+
+def _seq_last(cs):
+    repo.SHARE_OBJECTIVES[0] = True
+    return [_obs_of(c) for c in cs][-1]
 
 
 def run_grid_chain(arg):
@@ -378,7 +422,7 @@ def run_grid_chain(arg):
         t = bad["index"]
         for pos in range(bad["pos"] - 1, -1, -1):
             j = order[pos]
-            o = _in_child(lambda a, b: (_obs_of(a), _obs_of(b))[1], calls[j], calls[t])
+            o = _in_child(_pair_obs, calls[j], calls[t])
             if o != refs[t]:
                 bad["pair"] = [j, t]
                 break
@@ -646,7 +690,7 @@ def replay(case, acc):
         else:
             idx = grid_orders(len(calls), calls)[case["order"]][:case["pos"] + 1]
         last = calls[idx[-1]]
-        got = _in_child(lambda cs: [_obs_of(c) for c in cs][-1], [calls[i] for i in idx])
+        got = _in_child(_seq_last, [calls[i] for i in idx])
         want = _in_child(_obs_of, last)
         if got != want:
             acc.violation(last["algo"], cfg_str(last), inp_str(last), "result_depends_on_history", want, got, case)
